@@ -21,7 +21,7 @@ from vlib.fgenlab import ProgGen, ExprGen, Env, Var, DEFAULT_FLAGS
 
 HAZARDS = ('callee_return', 'dummy_name_capture', 'expr_actual_modified', 'absent_optional_ref',
            'fun_in_while', 'fun_in_elseif', 'kind_selected', 'autoarr_two_sizes', 'neg_const', 'fun_return',
-           'assumed_shape_lb', 'fun_array_arg', 'fun_in_inline_if')
+           'assumed_shape_lb', 'fun_array_arg', 'fun_in_inline_if', 'const_chain', 'assoc_param', 'fun_keyword_arg', 'nested_same_fun')
 
 INL_FLAGS = dict(
     # which callee kinds exist
@@ -30,7 +30,7 @@ INL_FLAGS = dict(
     # call-site features (all believed to be supported by Loki)
     keyword=True, optional=True, alias_in=True, sections=True, lbound_actual=True, expr_actual=True,
     nested_calls=True, local_clash=True, initialisers=True, automatic_arrays=True, assumed_shape=True,
-    call_density=0.3, optional_absent=False,
+    call_density=0.3, optional_absent=False, simple_conditions=False,
     # hazards (one at most)
     **{h: False for h in HAZARDS},
 )
@@ -72,6 +72,7 @@ class InlineGen(ProgGen):
         self.cmod_lines = []
         self.const_leaves = []  # (name, typ, bound)
         self.ncalls = 0
+        self.called = set()
 
     # ------------------------------------------------------------------ callee bodies
     def _cenv(self, vars_, loop=None):
@@ -188,7 +189,7 @@ class InlineGen(ProgGen):
         if has_yio:
             B.append(f"      {dn['yio']}({li}) = {ex.damp(ex.real_expr(envl, 2))}")
         if rng.random() < 0.4:
-            B.append(f"      if ({ex.log_expr(envl, 1)}) {lx} = {ex.damp(ex.real_expr(envl, 1))}")
+            B.append(f"      if ({self.cond(envl, 1)}) {lx} = {ex.damp(ex.real_expr(envl, 1))}")
         B.append('    end do')
         for o in opt:
             if o.typ == 'int':
@@ -206,7 +207,7 @@ class InlineGen(ProgGen):
                 B.append('    end if')
         if not leaf and f['nested_calls'] and 'hfun' in self.sigs and rng.random() < 0.5:
             self.features.add('nested_fun_in_sub')
-            ko = ', kopt=3' if self.sigs['hfun'].get('optional') and not (f['optional_absent'] and rng.random() < 0.5) else ''
+            ko = ', 3' if self.sigs['hfun'].get('optional') and not (f['optional_absent'] and rng.random() < 0.5) else ''
             B.append(f"    {lx} = {ex.damp('hfun(' + lx + ', ' + lj + ko + ') + ' + ex.rlit())}")
         if not leaf and not internal and f['nested_calls'] and 'hsub2' in self.sigs and rng.random() < 0.5:
             self.features.add('nested_sub_in_sub')
@@ -226,28 +227,29 @@ class InlineGen(ProgGen):
         return '\n'.join(txt) + '\n'
 
     def _mk_simple_sub(self, name):
-        """leaf subroutine with fixed signature (nn, xin, xio, sout, kin), called from hsub and from kern"""
+        """leaf subroutine with fixed signature (m2, xv, xu, so, kv), called from hsub and from kern; its dummy names
+        differ from every name used in hsub (an actual argument that mentions the name of a callee dummy is a hazard)"""
         rk, ex = self.rk, self.ex
         sig = {'name': name, 'kind': 'sub', 'optional': [], 'has': {'xin2': False, 'yio': False}, 'lb0': False,
-               'ashape': False, 'names': {k: k for k in ('nn', 'xin', 'xio', 'sout', 'kin')}}
-        ds = [Var('nn', 'int', intent='in', bound=8), Var('xin', 'real', 1, (('1', 'nn', 'nn'),), 'in'),
-              Var('xio', 'real', intent='inout'), Var('sout', 'real', intent='out'),
-              Var('kin', 'int', intent='in', bound=40)]
+               'ashape': False, 'names': {'nn': 'm2', 'xin': 'xv', 'xio': 'xu', 'sout': 'so', 'kin': 'kv'}}
+        ds = [Var('m2', 'int', intent='in', bound=8), Var('xv', 'real', 1, (('1', 'm2', 'm2'),), 'in'),
+              Var('xu', 'real', intent='inout'), Var('so', 'real', intent='out'),
+              Var('kv', 'int', intent='in', bound=40)]
         sig['dummies'] = [(v.name, v) for v in ds]
-        envl = self._cenv([v for v in ds if v.intent != 'out'], loop=('i', 'nn'))
-        txt = f"""  subroutine {name}(nn, xin, xio, sout, kin)
-    integer, intent(in) :: nn, kin
-    real(kind={rk}), intent(in) :: xin(nn)
-    real(kind={rk}), intent(inout) :: xio
-    real(kind={rk}), intent(out) :: sout
+        envl = self._cenv([v for v in ds if v.intent != 'out'], loop=('i', 'm2'))
+        txt = f"""  subroutine {name}(m2, xv, xu, so, kv)
+    integer, intent(in) :: m2, kv
+    real(kind={rk}), intent(in) :: xv(m2)
+    real(kind={rk}), intent(inout) :: xu
+    real(kind={rk}), intent(out) :: so
     integer :: i
     real(kind={rk}) :: x1
-    x1 = real(mod(kin, 3), {rk})*{ex.rlit()}
-    sout = x1
-    do i = 1, nn
-      sout = {ex.damp('sout + ' + ex.real_expr(envl, 2))}
+    x1 = real(mod(kv, 3), {rk})*{ex.rlit()}
+    so = x1
+    do i = 1, m2
+      so = {ex.damp('so + ' + ex.real_expr(envl, 2))}
     end do
-    xio = {ex.damp('xio*' + ex.rlit() + ' + sout - x1')}
+    xu = {ex.damp('xu*' + ex.rlit() + ' + so - x1')}
   end subroutine {name}
 """
         self.sigs[name] = sig
@@ -261,9 +263,9 @@ class InlineGen(ProgGen):
         if style == 'result' and clash and rng.random() < 0.3:
             rname = 's3'         # result name equal to a caller variable
         lx = 'x2' if clash else 'floc'
-        x, k = ('x', 'k') if not f['dummy_name_capture'] else ('s1', 'i1')
-        if internal:
-            x, k = 'x', 'kk'
+        x, k = ('xa', 'ka') if name != 'hfun2' else ('xb', 'kb')
+        if f['dummy_name_capture']:
+            x, k = 's1', 'i1'
         ds = [Var(x, 'real', intent='in'), Var(k, 'int', intent='in', bound=40)]
         host = [Var('s1', 'real', intent='in'), Var('i1', 'int', intent='in', bound=40)] if internal else []
         has_opt = f['optional'] and name == 'hfun' and rng.random() < 0.35
@@ -279,7 +281,7 @@ class InlineGen(ProgGen):
             B.append(f'    if ({k} > 1) return')
         B.append(f'    {rname} = {ex.damp(ex.real_expr(env, 2))} + real(mod({k}, 5), {rk})')
         if multi and rng.random() < 0.6:
-            B.append(f'    if ({ex.log_expr(env, 1)}) {rname} = {rname} - {ex.rlit()}')
+            B.append(f'    if ({self.cond(env, 1)}) {rname} = {rname} - {ex.rlit()}')
         if multi and rng.random() < 0.4:
             B.append(f'    if ({k} > 2) then')
             B.append(f'      {rname} = {ex.damp(rname + "*" + ex.rlit())}')
@@ -355,12 +357,12 @@ class InlineGen(ProgGen):
         self.cmod_lines = [
             'module cmod', '  use kinds_mod, only: jprb', '  implicit none',
             f'  integer, parameter :: nc1 = {rng.choice([2, 3, 4])}',
-            f'  integer, parameter :: nc2 = nc1 + {rng.choice([1, 2])}',
+            f'  integer, parameter :: nc2 = ' + (f'nc1 + {rng.choice([1, 2])}' if f['const_chain'] else str(rng.choice([4, 5, 6]))),
             f"  integer, parameter :: nc3 = {'-' if neg else ''}{rng.choice([2, 3])}",
             f'  real(kind=jprb), parameter :: cp1 = {self.ex.rlit()}',
             f'  real(kind=jprb), parameter :: cp2 = {self.ex.rlit()} + {self.ex.rlit()}',
             f"  real(kind=jprb), parameter :: cp3 = {'-' if neg else ''}{self.ex.rlit()}",
-            '  real(kind=jprb), parameter :: cp4 = cp1*2.0_jprb - 0.25_jprb',
+            '  real(kind=jprb), parameter :: cp4 = ' + ('cp1*2.0_jprb - 0.25_jprb' if f['const_chain'] else '2.0_jprb*1.5_jprb - 0.25_jprb'),
             'end module cmod', '']
         names = ['nc1', 'nc2', 'nc3', 'cp1', 'cp2', 'cp3', 'cp4']
         use = '    use cmod, only: ' + ', '.join(names)
@@ -437,6 +439,9 @@ class InlineGen(ProgGen):
         if not self.helper_sigs:
             return self.stmt_assign(ind)
         name, kind = rng.choice(self.helper_sigs)
+        return self._call_named(ind, name, kind)
+
+    def _call_named(self, ind, name, kind):
         if kind in ('sub', 'isub'):
             out = self._call_sub(ind, name)
         else:
@@ -444,6 +449,7 @@ class InlineGen(ProgGen):
         if out is None:
             return self.stmt_assign(ind)
         self.ncalls += 1
+        self.called.add(name)
         return out
 
     def _call_sub(self, ind, name):
@@ -499,7 +505,8 @@ class InlineGen(ProgGen):
         amap[dn['sout']] = s_out.ref
         modified = used | {s_io.name, s_out.name, s_io.derived_of or '', s_out.derived_of or ''}
         ropt_v = None
-        if dn.get('ropt') in sig['optional'] and rng.random() < 0.6:
+        if dn.get('ropt') in sig['optional'] and not f['absent_optional_ref'] and \
+                (not f['optional_absent'] or rng.random() < 0.6):
             rest = [v for v in sc if v is not s_io and v is not s_out]
             if rest:
                 ropt_v = rng.choice(rest)
@@ -575,18 +582,23 @@ class InlineGen(ProgGen):
             args = [ex.real_expr(env, 1) for _ in range(sig['nargs'])]
             return f"{name}({', '.join(args)})"
         x = ex.real_expr(env, 1)
-        if depth > 0 and f['nested_calls'] and rng.random() < 0.3:
-            inner = rng.choice([n for n, k in self.helper_sigs if k == 'fun'])
-            x = self._fun_ref(inner, depth - 1)
-            self.features.add('nested_fun_call')
+        if f['dummy_name_capture'] and sig['kind'] == 'fun':
+            self.features.add('dummy_name_capture')
+            return f"{name}(s1 + {ex.rlit()}, i1)"
+        if depth > 0 and f['nested_calls'] and rng.random() < (0.3 if not (f['fun_keyword_arg'] or f['nested_same_fun']) else 0.9):
+            cands = [n for n, k in self.helper_sigs if k == 'fun' and (n != name) != f['nested_same_fun']]
+            if cands:
+                x = self._fun_ref(rng.choice(cands), depth - 1)
+                self.features.add('nested_same_fun' if f['nested_same_fun'] else 'nested_fun_call')
         k, b = ex.int_expr(env, 1)
         if b > 40:
             k = f'mod({k}, 23)'
         args = [x, k]
         if sig.get('optional') and (not f['optional_absent'] or rng.random() < 0.5):
-            args.append(f'kopt={rng.randint(1, 7)}')
+            # keyword form only in the hazard slice (a keyword argument inside an actual argument breaks the argument map)
+            args.append(f"{'kopt=' if f['fun_keyword_arg'] else ''}{rng.randint(1, 7)}")
             self.features.add('fun_optional_present')
-        elif f['keyword'] and sig['kind'] in ('fun', 'ele') and rng.random() < 0.2:
+        elif f['fun_keyword_arg'] and sig['kind'] in ('fun', 'ele'):
             args = [x, f"{sig['args'][1]}={k}"]
             self.features.add('fun_keyword')
         return f"{name}({', '.join(args)})"
@@ -604,13 +616,13 @@ class InlineGen(ProgGen):
                 self.features.add('fun_in_while')
                 v, s = cnt[0], sc[0]
                 return [f'{ind}{v.name} = 3',
-                        f'{ind}do while ({name}({s.ref}, {v.name}) > 0.5_{rk} .and. {v.name} > 0)',
+                        f"{ind}do while ({name}({s.ref}, {v.name}{', 3' if self.sigs[name].get('optional') else ''}) > 0.5_{rk} .and. {v.name} > 0)",
                         f'{ind}  {s.ref} = {s.ref}*0.5_{rk}', f'{ind}  {v.name} = {v.name} - 1', f'{ind}end do']
         if f['fun_in_elseif']:
             self.features.add('fun_in_elseif')
             a2 = self.stmt_assign(ind + '  ')
             a3 = self.stmt_assign(ind + '  ')
-            return [f'{ind}if ({ex.log_expr(env, 1)}) then'] + a2 + \
+            return [f'{ind}if ({self.cond(env, 1)}) then'] + a2 + \
                    [f'{ind}else if ({ref} > {ex.rlit()}) then'] + a3 + [f'{ind}end if']
         if f['fun_array_arg'] and self.sigs[name]['kind'] == 'ele':
             arrs = [v for v in env.arrays('real', rank=1) if v.dims[0][2] == 'n' and v.dims[0][0] == '1']
@@ -620,7 +632,7 @@ class InlineGen(ProgGen):
                 return [f'{ind}{rng.choice(wr).ref} = {name}({rng.choice(arrs).ref}, 2)']
         if f['fun_in_inline_if']:
             self.features.add('fun_in_inline_if')
-            return [f'{ind}if ({ex.log_expr(env, 1)}) {tgt} = {ex.damp(ref)}']
+            return [f'{ind}if ({self.cond(env, 1)}) {tgt} = {ex.damp(ref)}']
         if c < 0.5:
             self.features.add('fun_in_expr')
             return [f'{ind}{tgt} = {ex.damp(ref + " + " + ex.real_expr(env, 1))}']
@@ -632,7 +644,15 @@ class InlineGen(ProgGen):
         if c < 0.75:
             self.features.add('fun_in_if_condition')
             a2 = self.stmt_assign(ind + '  ')
-            out = [f'{ind}if ({ref} > {ex.rlit()}) then'] + a2
+            if f['simple_conditions']:
+                # the function value is taken outside the condition (dead-code removal rewrites conditions with simplify)
+                sc = [v for v in env.scalars('real', writable=True)]
+                if not sc:
+                    return a2
+                s0 = rng.choice(sc)
+                out = [f'{ind}{s0.ref} = {ex.damp(ref)}', f'{ind}if ({s0.ref} > {ex.rlit()}) then'] + a2
+            else:
+                out = [f'{ind}if ({ref} > {ex.rlit()}) then'] + a2
             if rng.random() < 0.5:
                 out += [f'{ind}else'] + self.stmt_assign(ind + '  ')
             return out + [f'{ind}end if']
@@ -657,6 +677,9 @@ class InlineGen(ProgGen):
 
     def block(self, ind, depth, nstmts, loop_label=None):
         out = []
+        if getattr(self, '_saved_vars', None) is not None:
+            self.env.vars = self._saved_vars     # selectors are chosen, the block body sees all variables again
+            self._saved_vars = None
         for _ in range(nstmts):
             if self.helper_sigs and self.rng.random() < self.flags['call_density']:
                 self.stmt_count += 1
@@ -665,9 +688,87 @@ class InlineGen(ProgGen):
                 out += super().block(ind, depth, 1, loop_label)
         return out
 
-    def stmt_assign(self, ind):
-        # sprinkle constants into ordinary assignments through the environment (they are read-only leaves)
-        return super().stmt_assign(ind)
+    # -- conditions: with flags['simple_conditions'] every IF / SELECT condition is a plain comparison of scalar
+    #    variables and literals (InlineTransformation(remove_dead_code=True) rewrites all conditions with
+    #    loki.expression.simplify, whose defects belong to C08; they are exercised in a dedicated hazard slice only)
+    def cond(self, env, depth):
+        if not self.flags['simple_conditions']:
+            return self.ex.log_expr(env, depth)
+        return self._simple_cond(env, depth)
+
+    def _simple_cond(self, env, depth=1):
+        rng = self.rng
+        iv = [v.ref for v in env.scalars('int')] + [lv for lv, _ in env.loopvars]
+        rv = [v.ref for v in env.scalars('real')]
+        lv = env.log_leaves()
+        k = rng.choice(['i', 'i', 'r', 'r', 'l', 'and'] if depth > 0 else ['i', 'r', 'l'])
+        if k == 'and':
+            return f"({self._simple_cond(env, 0)}) {rng.choice(['.and.', '.or.'])} ({self._simple_cond(env, 0)})"
+        if k == 'l' and lv:
+            return rng.choice(lv) if rng.random() < 0.6 else f'.not. {rng.choice(lv)}'
+        if k == 'r' and rv:
+            return f"{rng.choice(rv)} {rng.choice(['<', '<=', '>', '>='])} {self.ex.rlit()}"
+        if iv:
+            b = rng.choice(iv) if rng.random() < 0.3 else str(rng.randint(0, 5))
+            return f"{rng.choice(iv)} {rng.choice(['==', '/=', '<', '<=', '>', '>='])} {b}"
+        return f"{self.ex.rlit()} > {self.ex.rlit()}" if not rv else f'{rv[0]} > {self.ex.rlit()}'
+
+    def stmt_if(self, ind, depth, loop_label=None):
+        if not self.flags['simple_conditions']:
+            return super().stmt_if(ind, depth, loop_label)
+        rng = self.rng
+        self.features.add('if')
+        out = [f'{ind}if ({self._simple_cond(self.env)}) then']
+        out += self.block(ind + '  ', depth - 1, rng.randint(1, 2), loop_label)
+        for _ in range(rng.choice([0, 0, 1])):
+            self.features.add('else_if')
+            out.append(f'{ind}else if ({self._simple_cond(self.env)}) then')
+            out += self.block(ind + '  ', depth - 1, rng.randint(1, 2), loop_label)
+        if rng.random() < 0.6:
+            out.append(f'{ind}else')
+            out += self.block(ind + '  ', depth - 1, rng.randint(1, 2), loop_label)
+        out.append(f'{ind}end if')
+        return out
+
+    def stmt_inline_if(self, ind, loop_label=None):
+        if not self.flags['simple_conditions']:
+            return super().stmt_inline_if(ind, loop_label)
+        self.features.add('inline_if')
+        a = self.stmt_assign('')[0]
+        return [f'{ind}if ({self._simple_cond(self.env)}) {a}']
+
+    def stmt_select(self, ind, depth, loop_label=None):
+        if not self.flags['simple_conditions']:
+            return super().stmt_select(ind, depth, loop_label)
+        rng = self.rng
+        self.features.add('select_case')
+        iv = [v.ref for v in self.env.scalars('int')]
+        out = [f'{ind}select case ({rng.choice(iv)})']
+        opts = [['(0)'], ['(1, 2)'], ['(3:4)'], ['(5:)']]
+        rng.shuffle(opts)
+        for o in opts[:rng.randint(1, 4)]:
+            out.append(f'{ind}case {o[0]}')
+            out += self.block(ind + '  ', depth - 1, rng.randint(1, 2), loop_label)
+        if rng.random() < 0.6:
+            out.append(f'{ind}case default')
+            out += self.block(ind + '  ', depth - 1, 1, loop_label)
+        out.append(f'{ind}end select')
+        return out
+
+    def stmt_associate(self, ind, depth, loop_label=None):
+        # PARAMETERs are associate selectors only in the hazard slice 'assoc_param'
+        keep = self.env.vars
+        if not self.flags['assoc_param']:
+            self.env.vars = [v for v in keep if v.kind != 'param']
+        elif any(v.kind == 'param' for v in keep):
+            self.env.vars = [v for v in keep if v.kind == 'param' or v.rank > 0]
+            self.features.add('assoc_param')
+        self._saved_vars = keep
+        try:
+            return super().stmt_associate(ind, depth, loop_label=loop_label)
+        finally:
+            self.env.vars = keep
+            self._saved_vars = None
 
     # ------------------------------------------------------------------ assembly
     def generate(self):
@@ -699,6 +800,13 @@ class InlineGen(ProgGen):
         while self.ncalls == 0 and self.helper_sigs and tries < 6:
             body += self.stmt_call('    ')
             tries += 1
+        for name, kind in self.helper_sigs:
+            # every kind of callee the case is about is called at least once at the top level of the kernel
+            if name in f.get('must_call', ()) and name not in self.called:
+                for _ in range(4):
+                    if name in self.called:
+                        break
+                    body += self._call_named('    ', name, kind)
         kinds = ('module kinds_mod\n  implicit none\n  integer, parameter :: jprb = '
                  + ('selected_real_kind(13, 300)' if f['kind_selected'] or not f['constants'] else '8')
                  + '\n  integer, parameter :: jpim = selected_int_kind(9)\nend module kinds_mod\n')
